@@ -7,6 +7,7 @@
 use serde::{Deserialize, Serialize};
 use simcore::rng::{hash_bytes, mix};
 use simcore::{Components, Obs, Rng, Scenario, Tier};
+use solana_program::instruction::Instruction;
 use solana_program::pubkey::Pubkey;
 
 use chainsim::rt::{TxOpts, TxOutcome, World};
@@ -47,6 +48,10 @@ pub struct Cfg {
     pub faults: bool,
     /// Generation profile (recorded for the evidence samples).
     pub profile: String,
+    /// C19 byzantine twins: every landed callback / close_participant is re-tried on a fork of the pre-state by
+    /// callers without the required authority.
+    #[serde(default)]
+    pub c19_twins: bool,
 }
 
 /// Deviation of one `on_executed` delivery from the ordinary successful order with a trade event.
@@ -256,6 +261,7 @@ impl CompetitionSim {
             merge_window,
             faults,
             profile: format!("vol={vol_profile},clock={clock_mode}"),
+            c19_twins: false,
         };
 
         // ---- plan
@@ -419,6 +425,7 @@ pub struct Sim<'a> {
     pub parts_pda: Vec<Option<(Pubkey, u8)>>,
     pub obs: &'a mut Obs,
     pub recent: Vec<TradeStep>,
+    pub twins: bool,
 }
 
 fn phase(m: &Model, now: i64) -> u64 {
@@ -445,7 +452,7 @@ impl<'a> Sim<'a> {
         x
     }
 
-    fn tx(&mut self, ix: solana_program::instruction::Instruction, opts: TxOpts) -> TxOutcome {
+    fn tx(&mut self, ix: Instruction, opts: TxOpts) -> TxOutcome {
         let opts = TxOpts {
             payer: Some(opts.payer.unwrap_or(self.payer)),
             ..opts
@@ -518,12 +525,80 @@ impl<'a> Sim<'a> {
         }
     }
 
+    /// C19 byzantine twin: run `ix` on a fork of `pre` (the state before a landed privileged instruction). It must
+    /// fail; where the program documents that it ignores the call (`may_ignore`: outside the competition window) it
+    /// may succeed provided the watched accounts keep their exact bytes.
+    #[allow(clippy::too_many_arguments)]
+    fn twin(&mut self, pre: &World, ix_name: &str, variant: &str, ix: Instruction, payer: Pubkey, watch: &[Pubkey], may_ignore: bool) {
+        let mut f = pre.clone();
+        let out = f.process_tx(&[ix], &TxOpts { fail_cpi_at: None, payer: Some(payer) });
+        self.obs.fault("byzantine_twin");
+        self.obs.probe(&format!("c19_twin:competition.{ix_name}"));
+        self.obs.outcome("stranger", &format!("twin_{ix_name}_{variant}"), &out.class());
+        self.obs.checked("stranger_accepted");
+        if out.ok {
+            let unchanged = watch.iter().all(|k| f.get(k) == pre.get(k));
+            if may_ignore && unchanged {
+                self.obs.probe("c19_twin_ignored_outside_window");
+            } else {
+                self.obs.violation(
+                    "C19",
+                    "stranger_accepted",
+                    format!("ix={ix_name},variant={variant},program=competition"),
+                    format!(
+                        "{ix_name} landed for a caller without the required authority ({variant}); watched accounts unchanged={unchanged}, inside window={}",
+                        !may_ignore
+                    ),
+                );
+            }
+        } else {
+            // a rejection leaves all accounts unchanged (runtime atomicity; checked on the watched accounts)
+            if !watch.iter().all(|k| f.get(k) == pre.get(k)) {
+                self.obs.violation(
+                    "C19",
+                    "rejection_changed_state",
+                    format!("ix={ix_name},variant={variant},program=competition"),
+                    "a rejected twin changed an account".into(),
+                );
+            }
+        }
+    }
+
+    /// Twins (a) authority not a signer and (b) a stranger signing in place of the callback authority, for a landed
+    /// callback instruction whose first account is the authority.
+    fn callback_twins(&mut self, pre: &World, ix_name: &str, landed: &Instruction, participant: Pubkey) {
+        let now = self.w.clock.unix_timestamp;
+        let may_ignore = !self.m.ongoing(now);
+        let watch = [self.m.competition, participant];
+        let mut a = landed.clone();
+        a.accounts[0].is_signer = false;
+        self.twin(pre, ix_name, "authority_not_signer", a, self.payer, &watch, may_ignore);
+        let mut b = landed.clone();
+        b.accounts[0].pubkey = fixed_key("stranger", 0);
+        b.accounts[0].is_signer = true;
+        self.twin(pre, ix_name, "stranger_signs_as_authority", b, self.payer, &watch, may_ignore);
+    }
+
     fn close(&mut self, tr: usize) {
         let (pda, _) = self.part_pda(tr);
         let trader = self.m.traders[tr];
         let ix = close_participant_ix(&self.m.competition, &pda, &trader);
-        let out = self.tx(ix, TxOpts { fail_cpi_at: None, payer: Some(trader) });
+        let pre = self.twins.then(|| self.w.clone());
+        let out = self.tx(ix.clone(), TxOpts { fail_cpi_at: None, payer: Some(trader) });
         self.obs.outcome("trader", "close", &out.class());
+        if let (true, Some(pre)) = (out.ok, pre.as_ref()) {
+            // (c) another trader signs: the owner is not a signer / the other trader is substituted as owner
+            let n = self.m.traders.len();
+            let other = self.m.traders[(tr + 1) % n];
+            if other != trader {
+                let watch = [self.m.competition, pda];
+                let mut c1 = ix.clone();
+                c1.accounts[0].is_signer = false;
+                self.twin(pre, "close_participant", "other_trader_signs_owner_unsigned", c1, other, &watch, false);
+                let c2 = close_participant_ix(&self.m.competition, &pda, &other);
+                self.twin(pre, "close_participant", "other_trader_substituted_as_owner", c2, other, &watch, false);
+            }
+        }
         if out.ok {
             let now = self.w.clock.unix_timestamp;
             if self.m.ongoing(now) {
@@ -546,13 +621,17 @@ impl<'a> Sim<'a> {
         };
         let action = fixed_key("action", tr as u64);
         let ix = other_callback_ix(wc, &self.m.competition, &pda, &trader, &action, &gmsol_competition::ID);
-        let out = self.tx(ix, TxOpts::default());
+        let pre = self.twins.then(|| self.w.clone());
+        let out = self.tx(ix.clone(), TxOpts::default());
         let op = match wc {
             OtherCallback::Created => "on_created",
             OtherCallback::Updated => "on_updated",
             OtherCallback::Closed => "on_closed",
         };
         self.obs.outcome("store", op, &out.class());
+        if let (true, Some(pre)) = (out.ok, pre.as_ref()) {
+            self.callback_twins(pre, op, &ix, pda);
+        }
     }
 
     /// Deliver one `on_executed`. Returns (counted, extension expected).
@@ -637,9 +716,16 @@ impl<'a> Sim<'a> {
             put_trade_event(&mut self.w, &self.event_key, &event_owner, data);
         }
         let ix = on_executed_ix(&call);
-        let out = self.tx(ix, TxOpts::default());
+        let pre = self.twins.then(|| self.w.clone());
+        let out = self.tx(ix.clone(), TxOpts::default());
         let op = if dup { "dup" } else { twist.tag() };
         self.obs.outcome("store", op, &out.class());
+        if let (true, Some(pre), false) = (out.ok, pre.as_ref(), twist.byzantine()) {
+            self.callback_twins(pre, "on_executed", &ix, call.participant);
+            if self.obs.should_stop() {
+                return (false, false);
+            }
+        }
         if dup && out.ok {
             self.obs.fault("duplicate_delivery");
         }
@@ -853,8 +939,11 @@ impl Scenario for CompetitionSim {
         "competition_forged_callbacks"
     }
 
-    fn generate(&self, seed: u64, run: u64, tier: Tier, _focus: &str) -> (Cfg, Vec<Step>) {
-        self.gen(seed, run, tier)
+    fn generate(&self, seed: u64, run: u64, tier: Tier, focus: &str) -> (Cfg, Vec<Step>) {
+        let (mut cfg, steps) = self.gen(seed, run, tier);
+        // C19 twins: always when C19 is the focus, in 1/16 of the runs otherwise
+        cfg.c19_twins = focus == "C19" || run % 16 == 5;
+        (cfg, steps)
     }
 
     fn execute(&self, cfg: &Cfg, steps: &[Step], obs: &mut Obs) {
@@ -878,6 +967,7 @@ impl Scenario for CompetitionSim {
             parts_pda: vec![None; n],
             obs,
             recent: Vec::new(),
+            twins: cfg.c19_twins,
         };
         for p in REACH_PROBES {
             s.obs.probe_n(p, 0);
